@@ -16,8 +16,9 @@ TRUSTED = [
     "as encodings of scalar lists; a byte string that is not valid UTF-8 (AelysString::from_bytes from a crafted "
     ".avbc) is outside the theorems",
     "byte offsets / lengths below 2^47 (the for-loop's offset register is a 48-bit VM int)",
-    "the compiler selects StringForLoop / StringLoadChar / string::len for an expression it types as string; "
-    "which opcode a program gets is covered only by the program-level tie, not by a theorem",
+    "the compiler selects StringForLoop / StringLoadChar / string::len for an expression it types as string and the "
+    "polymorphic VecForLoop / VecLoadP / VecLen otherwise; both selections are modelled (and proved equal on strings), "
+    "which one a program gets is covered only by the program-level tie",
 ]
 
 IMPORTS = "From Aelys Require Import Model.Utf8 Model.Utf8Obs."
@@ -160,8 +161,7 @@ def run_corpus(ctx, hx):
                 continue
             m = re.search(r"char_len=(\d+) items=(\d+)", output)
             if m and m.group(1) != m.group(2):
-                root = "vecforloop-on-string" if sfl == "0" else "stringforloop"
-                ctx.violation(f"c20:{root}:items={m.group(2)}:corpus:{name}",
+                ctx.violation(f"c20:corpus:{name}:items={m.group(2)}",
                               f"corpus program {name} at -O{opt}: char_len()={m.group(1)} but the for-each yields {m.group(2)} items "
                               f"(loop opcode selected: {'VecForLoop' if sfl == '0' else 'StringForLoop'})", rep)
     return n
@@ -228,7 +228,7 @@ def run(ctx):
                 meta.append((p[0], p[1], p[2], [int(x) for x in p[3].split()]))
         total += len(cases) + ncorp
         # ---- direct oracle on the implementation's own outputs
-        nd = nk = 0
+        nd = 0
         for tag, m, q, v in meta:
             if tag == "S":
                 dist["std_cases"] += 1
@@ -258,19 +258,13 @@ def run(ctx):
             d = prog_oracle(cs, v)
             if d:
                 nd += 1
-                # root-cause classification by a decidable predicate on the compiled bytecode: the
-                # for-each over the string was compiled as VecForLoop and yielded nothing
-                if d[0] == "char_len!=items" and dyn and v[2] == 0:
-                    nk += 1
-                    ctx.violation("c20:vecforloop-on-string:items=0:generated",
-                                  f"{d[1]}: iterable of unknown static type, loop compiled as VecForLoop (string {cs}, built as {form}, -{opt})",
-                                  {"scalars": cs, "form": form, "opt": opt, "opcodes": ops, "program": vlib_unesc(srcs.get(cid, ("", ""))[1])})
-                elif nd - nk <= 5:
-                    ctx.violation(f"c20:{d[0]}:{form}", f"{d[1]} (string {cs}, built as {form}, indices {idxf}, {scope}, -{opt})",
+                # KF-C20-1 (VecForLoop on a string yielded nothing) is repaired: no known class is left,
+                # the selected loop opcode is reported only to say where to look
+                if nd <= 5:
+                    ctx.violation(f"c20:{d[0]}:{form}:{'VecForLoop' if dyn else 'StringForLoop'}", f"{d[1]} (string {cs}, built as {form}, indices {idxf}, {scope}, -{opt})",
                                   {"scalars": cs, "form": form, "index_form": idxf, "scope": scope, "opt": opt,
                                    "observed": v, "program": vlib_unesc(srcs.get(cid, ("", ""))[1]), "profile": prof})
         ctx.cov["direct_oracle_failures"] = ctx.cov.get("direct_oracle_failures", 0) + nd
-        ctx.cov["direct_oracle_failures_in_known_class"] = ctx.cov.get("direct_oracle_failures_in_known_class", 0) + nk
         # ---- model vs implementation
         fails, err = vlib.coq_eval_cases("c20", IMPORTS, "uobs", "zlist_eqb", cases, shard=300)
         if err:
